@@ -8,15 +8,25 @@ Granularity (= the park points of `harness/rc.cpp` under `libvh/coop.h`): one st
 one park point to the next, where the park points are
 
 * the explicit `yieldPoint()` at the start of every operation of a thread program (`todo = []`),
-* the hook before each `AtomicCounter::AtomicIncrement/AtomicDecrement` of a reference count (`Act.inc…`, `Act.dec`),
+* the hook before each `AtomicCounter::AtomicIncrement/AtomicDecrement` of a reference count (`Act.inc…`, `Act.dec…`),
 * the hook before `Mutex::Lock` of the pool's `_mutex` in `ObtainObject()` / `ReleaseObject()` (`Act.obtain`, `Act.release`;
   the whole critical section, the unlock and the thread-local code behind it belong to that step),
+* in `ReleaseObject()`, the return of the `pthread_mutex_unlock` that releases `_mutex` (`Act.unlocked`; the harness
+  interposes on that function — there is no hook behind the unlock), so that whatever the code does between the unlock
+  and `delete slabToDelete` is a step of its own,
 * the first node destructor inside `delete slabToDelete` — after `mg.UnlockEarly()`, outside the lock (`Act.delSlab`).
 
-Objects are `{count, alive, mgr, val}` + the ghost counters `acq`/`rel` (hand-outs / releases).  A thread owns `L` private
-`Ref` slots; `G` global slots are mailboxes through which a reference is handed to another thread (one atomic step,
-count unchanged).  A pending `Act.dec o` *is* a reference: the C++ code still has the pointer in the `Ref` (or in a
-temporary) until the decrement has happened.
+Objects are `{count, alive, mgr, val}` + the ghost counters `acq`/`rel` (hand-outs / releases).  An object may HOLD a
+reference to another object (its `next` member, a reference-counting `Ref`): these are the pairs of `Cfg.links`
+(holder, target).  A thread owns `L` private `Ref` slots, each `(item, IsRefCounting())`; `G` global slots are mailboxes
+through which a reference is handed to another thread (one atomic step, count unchanged).  A pending `Act.dec o` /
+`Act.decNoDel o` *is* a reference: the C++ code still has the pointer in the `Ref` (or in a temporary) until the
+decrement has happened.
+
+`ConstRef::SetRef()`'s "switch items" branch takes the reference to the new item BEFORE it gives up the old one
+(/repo commit 3dba531): `inc new; UnrefItem(); set pointer`.  `Mode.old` keeps the order before that commit
+(`UnrefItem(); set pointer; RefItem()`) for the one operation where it matters (`pop`: `a = a->next`), so that the
+reason for the order is a theorem (`Props/C10.lean`), not a comment.
 -/
 
 namespace Muscle.Conc.RC
@@ -39,28 +49,48 @@ structure Obj where
   rel   : Nat := 0
   deriving DecidableEq, Repr
 
+/-- a `Ref`: NULL, or (item, `IsRefCounting()`) -/
+abbrev Slot := Option (Oid × Bool)
+
 /-- operations of a thread program on its slots `a b` (`g` = a global slot) -/
 inductive Op where
   | newHeap (a : Nat)      -- `slot[a].SetRef(new Obj)`
   | newPool (a : Nat)      -- `slot[a].SetRef(pool.ObtainObject())`
   | copy (a b : Nat)       -- `slot[a] = slot[b]`                       (`Ref::operator=(const Ref &)`)
-  | setRef (a b : Nat)     -- `slot[a].SetRef(slot[b]())`
+  | setRef (a b : Nat)     -- `slot[a].SetRef(slot[b]())`                (skipped unless slot b is NULL or reference-counting)
   | reset (a : Nat)        -- `slot[a].Reset()`
   | swap (a b : Nat)       -- `slot[a].SwapContents(slot[b])`
   | xchg (a g : Nat)       -- `slot[a].SwapContents(global[g])`          (hand-off, one atomic step)
-  | write (a : Nat)        -- `if (slot[a]()) slot[a]()->val = tid+1`
+  | write (a : Nat)        -- `if (slot[a] counts) slot[a]()->val = tid+1`
   | ccast (a b : Nat)      -- `{ConstRef c = AddConstToRef(slot[b]); slot[a] = CastAwayConstFromRef(c);}`
+  | link (a b : Nat)       -- `slot[a]()->next = slot[b]`   (only if slot a holds the ONLY reference to its object and slot b is NULL or counts another object)
+  | unlink (a : Nat)       -- `slot[a]()->next.Reset()`      (same privacy guard)
+  | pop (a : Nat)          -- `slot[a] = slot[a]()->next`    (also `slot[a].SetRef(slot[a]()->next())`: same steps)
+  | weak (a b : Nat)       -- `slot[a].SetRef(slot[b](), false)`
+  | promote (a : Nat)      -- `slot[a].SetRef(slot[a](), true)`   (only if another slot of the thread counts the same object)
+  | demote (a : Nat)       -- `slot[a].SetRef(slot[a](), false)`
+  | neutral (a : Nat)      -- `slot[a].Neutralize()`
+  deriving DecidableEq, Repr
+
+/-- `new` = `SetRef()` as of /repo commit 3dba531; `old` = the order before it (only `pop` differs) -/
+inductive Mode where
+  | new | old
   deriving DecidableEq, Repr
 
 /-- the park point a thread is at inside an operation (the action it performs when granted) -/
 inductive Act where
   | dec (o : Oid)            -- before `DecrementRefCount()` in `UnrefItemAux(item, true)`
-  | incFrom (a b : Nat)      -- before `IncrementRefCount()` in `RefItem()` of `slot[a].SetRef(slot[b]())`
-  | incRaw (a : Nat)         -- before `IncrementRefCount()` in `RefItem()` of `slot[a].SetRef(<new object>)`
+  | decNoDel (o : Oid)       -- before `DecrementRefCount()` in `UnrefItemAux(item, false)` / `Neutralize()`: never deletes
+  | incSlot (a b : Nat)      -- before `IncrementRefCount()` of `slot[b]`'s item in `slot[a].SetRef(…)`; then `UnrefItem()`, set pointer
+  | incRaw (a : Nat)         -- before `IncrementRefCount()` of the new object in `slot[a].SetRef(<new object>)`
   | incTmp (b : Nat)         -- before the increment that makes the temporary `c` of `ccast` reference `slot[b]`'s object
-  | incSwap (a b : Nat)      -- before the increment in `CastAwayConstFromRef`; then move-assignment into `slot[a]`
+  | incSame (a : Nat)        -- before `RefItem()` in the "start reference-counting now" branch of `SetRef(sameItem, true)`
+  | incNext (a b : Nat)      -- before the increment in `slot[a]()->next.SetRef(slot[b]())`
+  | incPop (a : Nat)         -- before the increment of `slot[a]()->next`'s item in `slot[a] = slot[a]()->next`
+  | incOld (a : Nat) (n : Oid) -- `Mode.old` only: `RefItem()` on the raw pointer `n` read before `UnrefItem()`
   | obtain                   -- before `Lock(_mutex)` in `ObtainObject()`
   | release (o : Oid)        -- before `Lock(_mutex)` in `ReleaseObject(o)`
+  | unlocked                 -- in `ReleaseObject()`, right after `mg.UnlockEarly()` released `_mutex` (before `delete slabToDelete`)
   | delSlab (s : Slab)       -- inside `delete slabToDelete`, before the first node is destroyed
   deriving Repr
 
@@ -75,7 +105,7 @@ inductive Evt where
   deriving Repr
 
 structure Th where
-  slots : List (Option Oid)
+  slots : List Slot
   raw   : Option Oid         -- a raw pointer in flight (`new Obj` / `ObtainObject()` result not yet wrapped in a `Ref`)
   todo  : List Act
   prog  : List Op
@@ -83,8 +113,9 @@ structure Th where
 
 structure Cfg where
   obj      : Oid → Obj
+  links    : List (Oid × Oid)   -- (holder, target): holder's `next` member references target
   pool     : PoolSt
-  glob     : List (Option Oid)
+  glob     : List Slot
   ths      : List Th
   nextHeap : Nat
 
@@ -93,59 +124,144 @@ def setObj (f : Oid → Obj) (o : Oid) (v : Obj) : Oid → Obj := fun x => if x 
 @[simp] theorem setObj_same (f : Oid → Obj) (o : Oid) (v : Obj) : setObj f o v o = v := by simp [setObj]
 @[simp] theorem setObj_other (f : Oid → Obj) (o : Oid) (v : Obj) (x : Oid) (h : x ≠ o) : setObj f o v x = f x := by simp [setObj, h]
 
+/-- `x->next()` -/
+def nextOf (l : List (Oid × Oid)) (x : Oid) : Option Oid := (l.find? fun p => p.1 = x).map (·.2)
+
+/-- `x->next` becomes NULL -/
+def dropKey (l : List (Oid × Oid)) (x : Oid) : List (Oid × Oid) := l.filter fun p => p.1 ≠ x
+
 def Cfg.init (N maxPool L G : Nat) (progs : List (List Op)) : Cfg :=
   { obj := fun _ => {}
+    links := []
     pool := PoolSt.init N maxPool
     glob := List.replicate G none
     ths := progs.map fun p => { slots := List.replicate L none, raw := none, todo := [], prog := p }
     nextHeap := 0 }
 
-def slotOf (th : Th) (a : Nat) : Option Oid := (th.slots[a]?).join
+def slotOf (th : Th) (a : Nat) : Slot := (th.slots[a]?).join
 
-/-- the pending decrement for the old content of a slot, if any (`UnrefItem()`: nothing to do for a NULL `Ref`) -/
-def decOld : Option Oid → List Act
+/-- the pending decrement for the old content of a `Ref`, if it is reference-counting (`UnrefItem()`) -/
+def decOld : Slot → List Act
+  | some (o, true) => [.dec o]
+  | _ => []
+
+/-- the pending decrement for the old target of a `next` member -/
+def decNext : Option Oid → List Act
   | some o => [.dec o]
   | none => []
+
+/-- some slot of the thread other than `a` is a reference-counting `Ref` to `o` -/
+def countsElsewhere (th : Th) (a : Nat) (o : Oid) : Bool :=
+  (List.range th.slots.length).any fun b => b ≠ a ∧ slotOf th b = some (o, true)
 
 /-- slot indices of an operation are in range (the op-line parsers of both sides reject anything else; an operation
 that fails this test is skipped) -/
 def opOk (c : Cfg) (th : Th) : Op → Bool
-  | .newHeap a | .newPool a | .reset a | .write a => decide (a < th.slots.length)
-  | .copy a b | .setRef a b | .swap a b | .ccast a b => decide (a < th.slots.length ∧ b < th.slots.length)
+  | .newHeap a | .newPool a | .reset a | .write a | .unlink a | .pop a | .promote a | .demote a | .neutral a => decide (a < th.slots.length)
+  | .copy a b | .setRef a b | .swap a b | .ccast a b | .link a b | .weak a b => decide (a < th.slots.length ∧ b < th.slots.length)
   | .xchg a g => decide (a < th.slots.length ∧ g < c.glob.length)
 
+/-- `slot[a].SetRef(item of slot b, f)` for an item that differs from slot a's: the reference-counting case parks
+before the increment, the non-counting case just releases the old item and stores the pointer -/
+def switchTo (c : Cfg) (th : Th) (a b : Nat) (o : Oid) (f : Bool) (rest : List Op) : Cfg × Th × List Evt :=
+  if f then (c, { th with todo := [.incSlot a b], prog := rest }, [])
+  else (c, { th with slots := th.slots.set a (some (o, false)), todo := decOld (slotOf th a), prog := rest }, [])
+
+/-- `slot[a].SetRef(o, f)` where `o` is the item of slot b (`f` = requested `doRefCount`) -/
+def setRefTo (c : Cfg) (th : Th) (a b : Nat) (o : Oid) (f : Bool) (rest : List Op) : Cfg × Th × List Evt :=
+  match slotOf th a with
+  | some (o', fa) =>
+    if o' = o then
+      if fa = f then (c, { th with prog := rest }, [])                                   -- same item, same flag: nothing
+      else if f then (c, { th with todo := [.incSame a], prog := rest }, [])            -- start reference-counting now
+      else (c, { th with slots := th.slots.set a (some (o, false)), todo := [.decNoDel o], prog := rest }, [])   -- stop reference-counting
+    else switchTo c th a b o f rest
+  | none => switchTo c th a b o f rest
+
 /-- first step of an operation (from the `yieldPoint()` to the first hook): thread-local code only, except `new Obj`,
-the payload write and the global-slot exchange -/
-def startOp (c : Cfg) (t : Tid) (th : Th) (op : Op) (rest : List Op) : Cfg × Th × List Evt :=
+the payload write, the global-slot exchange and clearing a `next` member -/
+def startOp (m : Mode) (c : Cfg) (t : Tid) (th : Th) (op : Op) (rest : List Op) : Cfg × Th × List Evt :=
   if opOk c th op = false then (c, { th with prog := rest }, []) else
+  let clear (a : Nat) : Cfg × Th × List Evt :=      -- `slot[a].Reset()`
+    (c, { th with slots := th.slots.set a none, todo := decOld (slotOf th a), prog := rest }, [])
+  let skip : Cfg × Th × List Evt := (c, { th with prog := rest }, [])
   match op with
   | .newHeap a =>
     let o := Oid.heap c.nextHeap
     -- a fresh object: its count is 0 (never touched before, see `Inv.heapFresh`), so only the other fields are written
     ({ c with obj := setObj c.obj o { c.obj o with alive := true, mgr := false, val := 0, acq := (c.obj o).acq + 1 },
               nextHeap := c.nextHeap + 1 },
-     { th with slots := th.slots.set a none, raw := some o, todo := decOld (slotOf th a) ++ [.incRaw a], prog := rest }, [.created o])
-  | .newPool a =>
-    (c, { th with slots := th.slots.set a none, todo := .obtain :: (decOld (slotOf th a) ++ [.incRaw a]), prog := rest }, [])
-  | .copy a b | .setRef a b =>
+     { th with raw := some o, todo := [.incRaw a], prog := rest }, [.created o])
+  | .newPool a => (c, { th with todo := [.obtain, .incRaw a], prog := rest }, [])
+  | .copy a b =>
     match slotOf th b with
-    | some o =>
-      if slotOf th a = some o then (c, { th with prog := rest }, [])     -- same item: `SetRef` does nothing
-      else (c, { th with slots := th.slots.set a none, todo := decOld (slotOf th a) ++ [.incFrom a b], prog := rest }, [])
-    | none => (c, { th with slots := th.slots.set a none, todo := decOld (slotOf th a), prog := rest }, [])
-  | .reset a => (c, { th with slots := th.slots.set a none, todo := decOld (slotOf th a), prog := rest }, [])
+    | some (o, f) => setRefTo c th a b o f rest
+    | none => clear a
+  | .setRef a b =>
+    match slotOf th b with
+    | some (o, true) => setRefTo c th a b o true rest
+    | some (_, false) => skip
+    | none => clear a
+  | .reset a => clear a
   | .swap a b =>
     (c, { th with slots := (th.slots.set a (slotOf th b)).set b (slotOf th a), prog := rest }, [])
   | .xchg a g =>
     ({ c with glob := c.glob.set g (slotOf th a) }, { th with slots := th.slots.set a ((c.glob[g]?).join), prog := rest }, [])
   | .write a =>
     match slotOf th a with
-    | some o => ({ c with obj := setObj c.obj o { c.obj o with val := t + 1 } }, { th with prog := rest }, [])
-    | none => (c, { th with prog := rest }, [])
+    | some (o, true) => ({ c with obj := setObj c.obj o { c.obj o with val := t + 1 } }, { th with prog := rest }, [])
+    | _ => skip
   | .ccast a b =>
     match slotOf th b with
-    | some _ => (c, { th with todo := [.incTmp b, .incSwap a b], prog := rest }, [])
-    | none => (c, { th with slots := th.slots.set a none, todo := decOld (slotOf th a), prog := rest }, [])
+    | some (_, true) => (c, { th with todo := [.incTmp b, .incSlot a b], prog := rest }, [])
+    | some (o, false) => (c, { th with slots := th.slots.set a (some (o, false)), todo := decOld (slotOf th a), prog := rest }, [])
+    | none => clear a
+  | .link a b =>
+    match slotOf th a with
+    | some (o, true) =>
+      if (c.obj o).count ≠ 1 then skip else
+      match slotOf th b with
+      | some (n, true) =>
+        if n = o ∨ nextOf c.links o = some n then skip
+        else (c, { th with todo := [.incNext a b], prog := rest }, [])
+      | some (_, false) => skip
+      | none => ({ c with links := dropKey c.links o }, { th with todo := decNext (nextOf c.links o), prog := rest }, [])
+    | _ => skip
+  | .unlink a =>
+    match slotOf th a with
+    | some (o, true) =>
+      if (c.obj o).count ≠ 1 then skip
+      else ({ c with links := dropKey c.links o }, { th with todo := decNext (nextOf c.links o), prog := rest }, [])
+    | _ => skip
+  | .pop a =>
+    match slotOf th a with
+    | some (o, true) =>
+      match nextOf c.links o with
+      | some n =>
+        match m with
+        | .new => (c, { th with todo := [.incPop a], prog := rest }, [])
+        | .old => (c, { th with slots := th.slots.set a none, todo := [.dec o, .incOld a n], prog := rest }, [])
+      | none => clear a
+    | _ => skip
+  | .weak a b =>
+    match slotOf th b with
+    | some (o, _) => setRefTo c th a b o false rest
+    | none => clear a
+  | .promote a =>
+    match slotOf th a with
+    | some (o, false) => if countsElsewhere th a o then (c, { th with todo := [.incSame a], prog := rest }, []) else skip
+    | _ => skip
+  | .demote a =>
+    match slotOf th a with
+    | some (o, true) => (c, { th with slots := th.slots.set a (some (o, false)), todo := [.decNoDel o], prog := rest }, [])
+    | _ => skip
+  | .neutral a =>
+    match slotOf th a with
+    | some (o, true) => (c, { th with slots := th.slots.set a none, todo := [.decNoDel o], prog := rest }, [])
+    | _ => (c, { th with slots := th.slots.set a none, prog := rest }, [])
+
+/-- `count + 1` -/
+def bump (c : Cfg) (o : Oid) : Oid → Obj := setObj c.obj o { c.obj o with count := (c.obj o).count + 1 }
 
 /-- one granted action (from its hook to the next park point) -/
 def doAct (c : Cfg) (th : Th) (act : Act) (rest : List Act) : Cfg × Th × List Evt :=
@@ -155,35 +271,54 @@ def doAct (c : Cfg) (th : Th) (act : Act) (rest : List Act) : Cfg × Th × List 
     let ob := c.obj o
     if ob.count - 1 = 0 then
       if ob.mgr then
-        -- `ReleaseObject`: `*obj = GetDefaultObject(); obj->SetManager(NULL);` then park before `Lock(_mutex)`
-        ({ c with obj := setObj c.obj o { ob with count := 0, alive := false, mgr := false, val := 0, rel := ob.rel + 1 } },
-         { th with todo := .release o :: rest }, [.reset o])
+        -- `ReleaseObject`: `*obj = GetDefaultObject()` (which releases `obj->next`), `obj->SetManager(NULL)`, then park before `Lock(_mutex)`
+        ({ c with obj := setObj c.obj o { ob with count := 0, alive := false, mgr := false, val := 0, rel := ob.rel + 1 },
+                  links := dropKey c.links o },
+         { th with todo := decNext (nextOf c.links o) ++ .release o :: rest }, [.reset o])
       else
-        ({ c with obj := setObj c.obj o { ob with count := 0, alive := false, rel := ob.rel + 1 } }, { th with todo := rest }, [.deleted o])
+        -- `delete item`: `~Obj()` releases `next`
+        ({ c with obj := setObj c.obj o { ob with count := 0, alive := false, rel := ob.rel + 1 }, links := dropKey c.links o },
+         { th with todo := decNext (nextOf c.links o) ++ rest }, [.deleted o])
     else ({ c with obj := setObj c.obj o { ob with count := ob.count - 1 } }, { th with todo := rest }, [])
-  | .incFrom a b =>
-    if th.slots[a]? ≠ some none then (c, { th with todo := rest }, []) else   -- never reached: slot a was cleared when the operation started
+  | .decNoDel o =>
+    ({ c with obj := setObj c.obj o { c.obj o with count := (c.obj o).count - 1 } }, { th with todo := rest }, [])
+  | .incSlot a b =>
+    if th.slots.length ≤ a then (c, { th with todo := rest }, []) else   -- never reached
     match slotOf th b with
-    | some o => ({ c with obj := setObj c.obj o { c.obj o with count := (c.obj o).count + 1 } },
-                 { th with slots := th.slots.set a (some o), todo := rest }, [])
-    | none => (c, { th with todo := rest }, [])   -- never reached: slot b is not touched between the start of the operation and here
+    | some (o, true) => ({ c with obj := bump c o },
+                 { th with slots := th.slots.set a (some (o, true)), todo := decOld (slotOf th a) ++ rest }, [])   -- then `UnrefItem()` of the old item
+    | _ => (c, { th with todo := rest }, [])   -- never reached: slot b is not touched between the start of the operation and here
   | .incRaw a =>
-    if th.slots[a]? ≠ some none then (c, { th with todo := rest }, []) else   -- never reached
+    if th.slots.length ≤ a then (c, { th with todo := rest }, []) else   -- never reached
     match th.raw with
-    | some o => ({ c with obj := setObj c.obj o { c.obj o with count := (c.obj o).count + 1 } },
-                 { th with slots := th.slots.set a (some o), raw := none, todo := rest }, [])
+    | some o => ({ c with obj := bump c o },
+                 { th with slots := th.slots.set a (some (o, true)), raw := none, todo := decOld (slotOf th a) ++ rest }, [])
     | none => (c, { th with todo := rest }, [])   -- never reached
   | .incTmp b =>
     match slotOf th b with
-    | some o => ({ c with obj := setObj c.obj o { c.obj o with count := (c.obj o).count + 1 } },
-                 { th with todo := rest ++ [.dec o] }, [])     -- `~c` runs at the end of the scope
-    | none => (c, { th with todo := rest }, [])   -- never reached
-  | .incSwap a b =>
-    if th.slots.length ≤ a then (c, { th with todo := rest }, []) else   -- never reached
-    match slotOf th b with
-    | some o => ({ c with obj := setObj c.obj o { c.obj o with count := (c.obj o).count + 1 } },
-                 { th with slots := th.slots.set a (some o), todo := decOld (slotOf th a) ++ rest }, [])   -- the temporary now holds the old item
-    | none => (c, { th with todo := rest }, [])   -- never reached
+    | some (o, true) => ({ c with obj := bump c o }, { th with todo := rest ++ [.dec o] }, [])     -- `~c` runs at the end of the scope
+    | _ => (c, { th with todo := rest }, [])   -- never reached
+  | .incSame a =>
+    match slotOf th a with
+    | some (o, false) =>
+      if countsElsewhere th a o then ({ c with obj := bump c o }, { th with slots := th.slots.set a (some (o, true)), todo := rest }, [])
+      else (c, { th with todo := rest }, [])   -- never reached
+    | _ => (c, { th with todo := rest }, [])   -- never reached
+  | .incNext a b =>
+    match slotOf th a, slotOf th b with
+    | some (o, true), some (n, true) =>
+      ({ c with obj := bump c n, links := (o, n) :: dropKey c.links o }, { th with todo := decNext (nextOf c.links o) ++ rest }, [])
+    | _, _ => (c, { th with todo := rest }, [])   -- never reached
+  | .incPop a =>
+    match slotOf th a with
+    | some (o, true) =>
+      match nextOf c.links o with
+      | some n => ({ c with obj := bump c n }, { th with slots := th.slots.set a (some (n, true)), todo := .dec o :: rest }, [])
+      | none => (c, { th with todo := rest }, [])   -- never reached
+    | _ => (c, { th with todo := rest }, [])   -- never reached
+  | .incOld a n =>
+    -- `Mode.old`: increments whatever the raw pointer points to, alive or not
+    ({ c with obj := bump c n }, { th with slots := th.slots.set a (some (n, true)), todo := rest }, [])
   | .obtain =>
     -- `{DECLARE_MUTEXGUARD(_mutex); ret = ObtainObjectAux();}  ret->SetManager(this);`
     let (p', g) := obtain c.pool
@@ -197,13 +332,14 @@ def doAct (c : Cfg) (th : Th) (act : Act) (rest : List Act) : Cfg × Th × List 
     | .node sid i =>
       let (p', del) := release c.pool sid i
       match del with
-      | some s => ({ c with pool := p' }, { th with todo := .delSlab s :: rest }, [])
-      | none => ({ c with pool := p' }, { th with todo := rest }, [])
+      | some s => ({ c with pool := p' }, { th with todo := .unlocked :: .delSlab s :: rest }, [])
+      | none => ({ c with pool := p' }, { th with todo := .unlocked :: rest }, [])
     | .heap _ => (c, { th with todo := rest }, [])   -- never reached
+  | .unlocked => (c, { th with todo := rest }, [])
   | .delSlab _ => (c, { th with todo := rest }, [.slabFreed])
 
 /-- thread `t` takes one step; `none` iff it has finished (no step of this machine can block) -/
-def step (c : Cfg) : Ev → Option (Cfg × List Evt)
+def step (m : Mode) (c : Cfg) : Ev → Option (Cfg × List Evt)
   | .timeout _ => none
   | .run t =>
     match c.ths[t]? with
@@ -212,12 +348,16 @@ def step (c : Cfg) : Ev → Option (Cfg × List Evt)
       match th.todo, th.prog with
       | [], [] => none
       | [], op :: rest =>
-        let (c', th', evs) := startOp c t th op rest
+        let (c', th', evs) := startOp m c t th op rest
         some ({ c' with ths := c'.ths.set t th' }, evs)
       | act :: more, _ =>
         let (c', th', evs) := doAct c th act more
         some ({ c' with ths := c'.ths.set t th' }, evs)
 
-def machine : Machine := { C := Cfg, O := List Evt, step := step }
+/-- the machine of the code as it is -/
+def machine : Machine := { C := Cfg, O := List Evt, step := step .new }
+
+/-- the machine with `SetRef()`'s order before /repo commit 3dba531 (for the counter-example only) -/
+def machineOld : Machine := { C := Cfg, O := List Evt, step := step .old }
 
 end Muscle.Conc.RC
